@@ -12,6 +12,12 @@
 (*     end of the stream; data ending inside a frame (header or body) is   *)
 (*     an error.  ("header_eof_is_eos" in Defects: the pinned tree took    *)
 (*     EOF anywhere inside a frame header for the end of the stream.)      *)
+(* Encoder side: the caller OFFERS the frames FrameLen[1..N]; with a       *)
+(* declared total the encoder refuses (writes nothing of) the first frame  *)
+(* that would pass it, so only frames inside the declared total are ever   *)
+(* emitted.  ("overshoot_written" in Defects: the count is compared before *)
+(* the pending frame is added, so the frame that crosses the declared      *)
+(* total is still written in full - which the decoder then refuses.)       *)
 (***************************************************************************)
 EXTENDS Integers, Sequences, TLC
 
@@ -23,7 +29,11 @@ RECURSIVE EndOf(_)
 EndOf(i) == IF i = 0 THEN MetaLen ELSE EndOf(i - 1) + FrameBytes[i]
 RECURSIVE SamplesUpTo(_)
 SamplesUpTo(i) == IF i = 0 THEN 0 ELSE SamplesUpTo(i - 1) + FrameLen[i]
-TotalBytes == EndOf(N)
+\* frames actually emitted before the crash
+Inside == IF Declared = -1 THEN N
+          ELSE LET S == {i \in 0..N : SamplesUpTo(i) <= Declared} IN CHOOSE i \in S : \A j \in S : j <= i
+E == IF "overshoot_written" \in Defects /\ Inside < N /\ SamplesUpTo(Inside) < Declared THEN Inside + 1 ELSE Inside
+TotalBytes == EndOf(E)
 
 VARIABLES cut, next, delivered, ending
 vars == <<cut, next, delivered, ending>>
@@ -35,8 +45,10 @@ ReadFrame ==
     /\ ending = "run"
     /\ UNCHANGED cut
     /\ IF Declared # -1 /\ delivered = Declared THEN ending' = "eos" /\ UNCHANGED <<next, delivered>>
-       ELSE IF next <= N /\ EndOf(next) <= cut
-            THEN delivered' = delivered + FrameLen[next] /\ next' = next + 1 /\ UNCHANGED ending
+       ELSE IF next <= E /\ EndOf(next) <= cut
+            THEN IF Declared # -1 /\ delivered + FrameLen[next] > Declared
+                 THEN ending' = "err" /\ UNCHANGED <<next, delivered>>          \* more samples than STREAMINFO allows
+                 ELSE delivered' = delivered + FrameLen[next] /\ next' = next + 1 /\ UNCHANGED ending
             ELSE \* the data runs out inside (or right before) frame `next`
                  LET avail == cut - EndOf(next - 1) IN
                  /\ UNCHANGED <<next, delivered>>
@@ -48,11 +60,11 @@ Spec == Init /\ [][Next]_vars
 
 (* C14 *)
 Complete == IF cut < MetaLen THEN 0
-            ELSE LET S == {i \in 0..N : EndOf(i) <= cut} IN SamplesUpTo(CHOOSE i \in S : \A j \in S : j <= i)
+            ELSE LET S == {i \in 0..E : EndOf(i) <= cut} IN SamplesUpTo(CHOOSE i \in S : \A j \in S : j <= i)
 ExactlyTheCompleteFrames == ending \in {"eos", "err"} => delivered = Complete
 NeverMore == delivered <= Complete
 CleanEndOnlyWhenEntitled == ending = "eos" => (Declared = -1 \/ delivered = Declared)
 OpenFailsInsideMetadata == cut < MetaLen => (ending = "openerr" /\ delivered = 0)
 \* C05: a cut is reported unless what is left is itself a complete stream
-TruncationReported == (ending = "eos" /\ Declared = -1) => \E i \in 0..N : EndOf(i) = cut
+TruncationReported == (ending = "eos" /\ Declared = -1) => \E i \in 0..E : EndOf(i) = cut
 =======================================================================
